@@ -18,7 +18,7 @@ THEOREMS = [
 ]
 HARNESSES = [
     dict(name="rl", pkg="pkg/util/ratelimiter", files=["harness/ratelimiter/zz_verif_c09_test.go"],
-         run="TestVerifC09", groups=["rl", "multi"], timeout=300, share=0.7),
+         run="TestVerifC09", groups=["rl", "multi"], timeout=300, share=0.6),
     dict(name="race", pkg="pkg/util/ratelimiter",
          files=["harness/ratelimiter/zz_verif_c09_test.go", "harness/ratelimiter/zz_verif_c09_race_test.go"],
          run="TestVerifC09Race", groups=["rl"], timeout=300, share=0.02),
@@ -26,7 +26,7 @@ HARNESSES = [
          files=["harness/ratelimiter/zz_verif_c09_test.go", "harness/ratelimiter/zz_verif_c09_conc_test.go"],
          run="TestVerifC09Conc", groups=["rl"], timeout=600, share=0.01, thorough_only=True, race=True),
     dict(name="flt", pkg="pkg/filters/ratelimiter", files=["harness/filters_ratelimiter/zz_verif_c09_flt_test.go"],
-         run="TestVerifC09Filter", groups=["flt"], timeout=300, share=0.15,
+         run="TestVerifC09Filter", groups=["flt"], timeout=300, share=0.25,
          extra_overlay={"pkg/util/ratelimiter/zz_verif_hook.go": "harness/ratelimiter/zz_verif_hook.go"}),
     dict(name="mqtt", pkg="pkg/object/mqttproxy", files=["harness/mqttproxy/zz_verif_c09_mqtt_test.go"],
          run="TestVerifC09Mqtt", groups=["mqtt"], timeout=300, share=0.15,
